@@ -23,6 +23,12 @@ CLAIMED = {
         design_ref="DESIGN.md 4 (C13)",
         note="T_C13_truncated is proved for different source/target widths only (same-width cases by example + correspondence; UTF-8 into char passes a partial character through: known finding F39). Lossless/truncated theorems assume well-formed text (ill-formed text: progress + correspondence). Defects F05 F06(single unit) F37 F38 F42 found here were repaired.",
         technique="Coq proof (carry-over invariant of the chunked decoder over the UTF model, for every chunk size) with extracted-model vs implementation correspondence"),
+    "C01": dict(
+        category="proof",
+        text="PARTIAL. Proved (coq/Properties_C01.v 19 + Properties_C01jx.v, jx family): the loader model applied to what the writer model emitted returns the value - MsgPack at value level for every writer overload / integer target / float bit pattern / string and at document level for any typed value tree (T_C01_mp_tree), CSV for any table, separator and requested key list in memory and through the stream reader of every chunk size, encoded text streams for every encoding / BOM / chunk size / width (writer then reader = the text, outside the C13 detection classes), string width conversion, and the JSON/XML adapter round trip of the jx family. Decided on the real implementation on every run with the property as its own oracle: SaveObject then LoadObject into a fresh object through the public API for ~55 catalogue types (fundamentals at root/array/object level, four string widths, enums, nested classes with base class, std containers, optional, smart pointers, tuple, pair, chrono) x MsgPack/JSON/XML/CSV x memory/stream x 5 encodings x BOM x formatting x separators under ASan+UBSan; non-finite floats (JSON must throw); load-save-load on the library's own documents re-rendered by independent writers. Twelve defects found by this check were repaired (F07 F26 F27 F28 F29 F29w F42 F47 F48 F49 F51 + follow-ups); five are known findings (XML null/empty ambiguity F29n F53, XML CR F52, BOM-less JSON scalar root F50, CSV empty table F22).",
+        design_ref="DESIGN.md 4 (C01)",
+        note="partial: there is no Coq model of the generic load layer over JSON/XML/CSV for std containers and classes (C18 models container loading; RapidJSON and pugixml are third party), so for those the quantified statement rests on the end-to-end exploration, which samples values and configurations. The models the theorems speak about are tied to /repo by the correspondences of C06/C07/C09/C13/C11/C16/C08, not repeated here.",
+        technique="Coq proof (writer/reader model compositions) + end-to-end round-trip exploration of the implementation with the property as oracle"),
     "C04": dict(
         category="proof",
         text="Coq theorems T_C04_* (coq/Properties_C04.v, 24): for every pair of the 13 integer kinds (and any widths) and every in-range source value, the model of Convert's integer-to-integer path and of ConvertByPolicy/SafeNumberCast returns the same value iff it fits the target and OutOfRange otherwise, never an altered value; the policy layer turns that into throw / keep-old-value exactly as configured, for any non-convertible pair into MismatchedTypes; integer->float/double accepts exactly the integers the target represents exactly and is total (no cast UB); double->float accepts exactly the doubles that are floats (Flocq binary32/binary64), float->double is exact; floating->integer is refused. Tied to /repo by correspondence: all type pairs x boundary neighbourhoods of every width, exact-rational oracle for the floating cases, built with -fsanitize=float-cast-overflow. Defects F44 (cast UB) and F45 (lost MismatchedTypes) found here were repaired (30e94fb, 76c37b6).",
